@@ -1,3 +1,4 @@
 import CohdlVerif.Model.DriverLoop
--- model driver of property C11 (stub: no model entry points yet)
-def main : IO Unit := CohdlVerif.driverLoop (fun _ => "bad-op")
+import CohdlVerif.Model.C11
+-- model driver of property C11:  `run <cfg bits> <perm> <script> (; <script>)*`
+def main : IO Unit := CohdlVerif.driverLoop CohdlVerif.C11.handle
